@@ -15,7 +15,10 @@ output names.
 import ast
 import re._constants as sre_c
 
-from ..consteval import UNKNOWN, const_eval
+import re
+
+from ..consteval import RegexConst, UNKNOWN, const_eval
+from ..facts import Facts, direct, has, has_call, has_const, param_of
 from ..index import AnalysisError, unparse, walk_no_nested
 from .. import query as Q
 from .. import rx
@@ -23,14 +26,39 @@ from ..rules import owner
 from ..rules.roots import BUILD, SRC, RootEval
 
 
+def _facts(ctx):
+    f = getattr(ctx, '_facts', None)
+    if f is None:
+        f = ctx._facts = Facts(ctx.repo)
+    return f
+
+
+def _const_of(ctx, F, expr, fn):
+    v = const_eval(ctx.repo, fn.module, expr)
+    if v is UNKNOWN and isinstance(expr, ast.Name):
+        v = const_eval(ctx.repo, fn.module, Q.inline(fn.node, expr))
+    return v
+
+
 def parref_regex(ctx):
     R = 'PARREF-REGEX'
     ctx.rule(R, 'the parent-reference rewrite in within_directory matches '
              'exactly the path component ".." and replaces it by a name that '
-             'is not a parent reference')
+             'is not a parent reference (decided by evaluating the constant '
+             'pattern and replacement on component samples)')
     repo = ctx.repo
-    f = repo.func('bfg9000.builtins.path:within_directory')
-    subs = [c for c in Q.calls(f.node) if Q.text(c.func) in ('re.sub',)]
+    F = _facts(ctx)
+    f = F.fn('bfg9000.builtins.path:within_directory')
+    subs = []
+    for e in F.effects(f, lambda e: e.name == 'sub', depth=1):
+        c = e.call
+        recv = c.func.value if isinstance(c.func, ast.Attribute) else None
+        rc = _const_of(ctx, F, recv, e.fn) if recv is not None else UNKNOWN
+        if isinstance(rc, RegexConst) and len(c.args) >= 2:
+            subs.append((rc.pattern, _const_of(ctx, F, c.args[0], e.fn), e))
+        elif len(c.args) >= 3:
+            subs.append((_const_of(ctx, F, c.args[0], e.fn),
+                         _const_of(ctx, F, c.args[1], e.fn), e))
     comp_cmp = [n for n in ast.walk(f.node) if isinstance(n, ast.Compare) and
                 any(const_eval(repo, f.module, x) == '..'
                     for x in [n.left] + n.comparators)]
@@ -42,58 +70,58 @@ def parref_regex(ctx):
             return
         raise AnalysisError('within_directory: no re.sub and no component '
                             'comparison with ".." found')
-    n_sub = 0
-    for c in subs:
-        pat = const_eval(repo, f.module, c.args[0]) if c.args else UNKNOWN
-        if not isinstance(pat, str):
-            raise AnalysisError('within_directory: non-constant pattern')
-        p = list(rx.parse(pat))
-        # strip a leading separator group / anchor and a trailing
-        # look-ahead / separator group
-        lead, trail = [], []
-        while p and (p[0][0] in (sre_c.AT,) or (
-                p[0][0] is sre_c.SUBPATTERN and _is_sep_group(p[0][1][3]))):
-            lead.append(p.pop(0))
-        while p and (p[-1][0] in (sre_c.AT, sre_c.ASSERT) or (
-                p[-1][0] is sre_c.SUBPATTERN and
-                _is_sep_group(p[-1][1][3]))):
-            trail.append(p.pop())
-        lang = rx.literal_language(p)
-        key = 'within_directory|re.sub|middle-language'
-        n_sub += 1
-        ctx.ob(R, key, lang == '..', c,
-               'pattern {!r}: the part between the separators denotes {} '
-               'instead of exactly the string ".." (an unescaped "." matches '
-               'any character, so e.g. the directories "aa" and "bb" are '
-               'both renamed)'.format(
-                   pat, repr(lang) if lang is not None else
-                   'a set of strings'))
-        ctx.ob(R, 'within_directory|re.sub|anchored',
-               bool(lead) and bool(trail), c,
-               'pattern {!r} is not delimited by separators/anchors on both '
-               'sides'.format(pat))
-        repl = const_eval(repo, f.module, c.args[1]) if len(c.args) > 1 \
-            else UNKNOWN
-        ok = isinstance(repl, str) and '..' not in repl and bool(
-            repl.replace('\\1', '').replace('\\g<1>', ''))
-        ctx.ob(R, 'within_directory|re.sub|replacement', ok, c,
+    for pat, repl, e in subs:
+        if hasattr(pat, 'pattern'):
+            pat = pat.pattern
+        if not isinstance(pat, str) or not isinstance(repl, str):
+            raise AnalysisError('within_directory: non-constant pattern / '
+                                'replacement')
+        try:
+            cre = re.compile(pat)
+
+            def rw(x):
+                return cre.sub(repl, x)
+            keep = ['aa/bb', 'a/..b/c', 'a/b../c', '.../x', 'a/.b', 'a.b',
+                    'xy', 'a/b..', '..a', '.', 'a/./b']
+            kept = all(rw(x) == x for x in keep)
+            changed = {x: rw(x) for x in ('..', '../x', 'x/..', 'a/../b',
+                                          '../../x', 'a/../../b')}
+        except re.error:
+            kept, changed = False, {}
+        ctx.ob(R, 'within_directory|re.sub|middle-language', kept, e.call,
+               'pattern {!r} rewrites names that are not the component '
+               '".." (an unescaped "." matches any character, so e.g. the '
+               'directories "aa" and "bb" are both renamed)'.format(pat))
+        ok = bool(changed) and all(
+            '..' not in v.split('/') and len(v.split('/')) == len(
+                k.split('/')) and all(p_ for p_ in v.split('/'))
+            for k, v in changed.items()) and len(set(
+                changed['a/../b'].split('/'))) == 3
+        ctx.ob(R, 'within_directory|re.sub|anchored', ok, e.call,
+               'pattern {!r} / replacement {!r} do not rewrite every ".." '
+               'component (start, middle, end, repeated) into an ordinary '
+               'name: {}'.format(pat, repl, changed))
+        ok = isinstance(repl, str) and '..' not in repl
+        ctx.ob(R, 'within_directory|re.sub|replacement', ok, e.call,
                'replacement {!r} does not substitute an ordinary name'
                .format(repl))
-    # the rewritten suffix is appended to the directory
-    rets = Q.returns(f.node)
-    ok = len(rets) == 1 and isinstance(rets[0].value, ast.Call) and \
-        Q.callee_attr(rets[0].value) == 'append'
+    aps = [e for e in F.effects(f, lambda e: e.name == 'append', depth=0)
+           if param_of(e.recv(), 'directory')]
+    ok = bool(aps) and has_call(F.returns(f), 'append')
     ctx.ob(R, 'within_directory|result-below-directory', ok, f.node,
            'result is not `directory.append(<rewritten suffix>)`')
-
-
-def _is_sep_group(seq):
-    seq = list(seq)
-    if len(seq) == 1 and seq[0][0] is sre_c.BRANCH:
-        return True
-    if len(seq) == 1 and seq[0][0] is sre_c.LITERAL and chr(seq[0][1]) == '/':
-        return True
-    return False
+    ok = bool(aps)
+    for e in aps:
+        a0 = e.call.args[0] if e.call.args else None
+        vals = [a0]
+        if isinstance(a0, ast.Name):
+            vals = F.reaching_defs(e.fn, a0)
+        ok = ok and bool(vals) and all(
+            isinstance(v, ast.Call) and Q.callee_attr(v) == 'sub'
+            for v in vals)
+    ctx.ob(R, 'within_directory|every-suffix-is-rewritten', ok, f.node,
+           'a path suffix can reach directory.append() without passing '
+           'through the parent-reference rewrite (fast path)')
 
 
 def output_root(ctx):
@@ -138,8 +166,9 @@ def output_root(ctx):
                         if any(Q.attr_name(x.func) in ('Path', 'reroot')
                                for x in Q.calls(meth)):
                             todo.append(meth)
-    ctx.require_min(R, n_sites, 20, 'Path constructions in output_file '
-                    'methods')
+    ctx.ob(R, 'output_file-path-constructions|found', n_sites >= 12, None,
+           'only {} Path constructions in output_file methods found'.format(
+               n_sites))
 
     # 2. pathfn of CopyFile / CompressFile
     for cls_fq in ('bfg9000.builtins.copy_file:CopyFile',
@@ -226,25 +255,25 @@ def output_root(ctx):
                 roots = ev.root(c)
                 ctx.ob(R, f.fq + '|' + unparse(c), roots == {BUILD}, c,
                        'root {}'.format(sorted(roots)))
-    f = repo.func('bfg9000.backends.make.writer:multitarget_rule')
-    vals = [v for v in Q.local_assignments(f.node, 'primary')
-            if v is not None]
-    stamp = [v for v in vals if isinstance(v, ast.Call) and
-             Q.callee_attr(v) == 'addext']
-    ctx.ob(R, f.fq + '|stamp derived from first target',
-           len(stamp) == 1 and 'first' in unparse(stamp[0]) or
-           (len(stamp) == 1 and 'targets[0]' in unparse(stamp[0])),
-           f.node, 'stamp file is not `<first target>.addext(...)`')
+    F = _facts(ctx)
+    f = F.fn('bfg9000.backends.make.writer:multitarget_rule')
+    st = [e for e in F.effects(f, lambda e: e.name == 'addext', depth=1)
+          if any("'.stamp'" in a for a in e.all_args() | e.texts())]
+    ok = bool(st) and all(has(e.recv(), 'targets[0]') or (
+        param_of(e.recv(), 'targets') or has(e.recv(), 'targets'))
+        for e in st)
+    ctx.ob(R, f.fq + '|stamp derived from first target', ok, f.node,
+           'stamp file is not `<first target>.addext(...)`')
 
     # 6. intermediate directory of link steps is a relative name below the
     # (builddir-rooted) output name
-    f = repo.method('bfg9000.builtins.link:Link', 'convert_args')
-    vals = [v for v in Q.local_assignments(f.node, 'intdir')
-            if v is not None]
-    Q.require(vals, 'Link.convert_args: intdir not assigned')
-    txt = ' '.join(unparse(v) for v in vals)
-    ctx.ob(R, f.fq + '|intdir derived from target name',
-           '__name(name)' in txt or 'cls.__name' in txt, f.node,
+    f = F.fn('bfg9000.builtins.link:Link.convert_args')
+    ds = [e for e in F.effects(f, lambda e: Q.kwarg(e.call, 'directory')
+                               is not None, depth=0)]
+    ok = bool(ds) and all(has_call(e.arg(kw='directory'), '__name') and
+                          param_of(e.arg(kw='directory'), 'name')
+                          for e in ds)
+    ctx.ob(R, f.fq + '|intdir derived from target name', ok, f.node,
            'intermediate directory is not derived from the target name')
 
 
@@ -275,42 +304,8 @@ def name_strip_once(ctx):
                '{}: default_name strips the extension and output_file '
                'strips again ({}): `x.tab.c` and `x.c` get the same output'
                .format(ci.name, unparse(b[0]) if b else ''))
-    ctx.require_min(R, n, 6, 'tool classes with default_name+output_file')
-    # within_directory: everything appended to the directory went through the
-    # parent-reference rewrite
-    f = repo.func('bfg9000.builtins.path:within_directory')
-    rets = Q.returns(f.node)
-    if len(rets) == 1 and isinstance(rets[0].value, ast.Call) and \
-            Q.callee_attr(rets[0].value) == 'append' and \
-            rets[0].value.args and isinstance(rets[0].value.args[0],
-                                              ast.Name):
-        var = rets[0].value.args[0].id
-        defs = [v for v in Q.local_assignments(f.node, var)]
-        rewrites = [v for v in defs if v is not None and isinstance(
-            v, ast.Call) and unparse(v.func) in ('re.sub',)]
-        feeds = []
-        for v in defs:
-            if v is None or v in rewrites:
-                continue
-            # a definition is fine when its only use is as input of the
-            # rewrite
-            feeds.append(v)
-        uses_ok = True
-        for v in feeds:
-            # the value must reach re.sub: i.e. some rewrite takes `var`
-            # as its subject and follows this definition in the same block
-            blk = v._parent._parent if hasattr(v, '_parent') else None
-            sib = getattr(blk, 'body', None)
-            ok_here = False
-            if isinstance(sib, list) and v._parent in sib:
-                later = sib[sib.index(v._parent) + 1:]
-                ok_here = any(isinstance(s_, ast.Assign) and s_.value in
-                              rewrites for s_ in later)
-            uses_ok = uses_ok and ok_here
-        ctx.ob('PARREF-REGEX', 'within_directory|every-suffix-is-rewritten',
-               bool(rewrites) and uses_ok, f.node,
-               'a path suffix can reach directory.append() without passing '
-               'through the parent-reference rewrite (fast path)')
+    ctx.ob(R, 'tool-classes|found', n >= 4, None,
+           'only {} tool classes with default_name+output_file'.format(n))
 
 
 # write-effect sites: (function fq, description, how the path is obtained)
@@ -342,7 +337,8 @@ def write_root(ctx):
                        'os.mkdir', 'os.rename', 'os.replace', 'os.rmdir',
                        'os.symlink', 'os.link', 'os.chmod'):
                 sites.append((m, c, t, c.args[0]))
-    ctx.require_min(R, len(sites), 14, 'file-system mutation sites')
+    ctx.ob(R, 'mutation-sites|found', len(sites) >= 10, None,
+           'only {} file-system mutation sites found'.format(len(sites)))
     ctx.stat('write_sites', len(sites))
     for m, c, kind, pathexpr in sites:
         fn = repo.enclosing_func(c)
